@@ -91,11 +91,30 @@ impl<'a> FieldParser<'a> {
         ))
         .unwrap();
 
+        // Check that the span holds the optional scalar or enum value
+        // when the condition is satisfied.
+        let check_size = |width: usize| {
+            let span = self.span;
+            let packet_name = &self.packet_name;
+            let wanted = proc_macro2::Literal::usize_unsuffixed(width / 8);
+            quote! {
+                if #cond_id == #cond_value && #span.remaining() < #wanted {
+                    return Err(DecodeError::LengthError {
+                        obj: #packet_name,
+                        wanted: #wanted,
+                        got: #span.remaining(),
+                    });
+                }
+            }
+        };
+
         self.tokens.extend(match &field.desc {
             ast::FieldDesc::Scalar { id, width } => {
                 let id = id.to_ident();
+                let check_size = check_size(*width);
                 let value = types::get_uint(self.endianness, *width, self.span);
                 quote! {
+                    #check_size
                     let #id = (#cond_id == #cond_value).then(|| #value);
                 }
             }
@@ -106,8 +125,10 @@ impl<'a> FieldParser<'a> {
                     let id = id.to_ident();
                     let type_id = type_id.to_ident();
                     let decl_id = &self.packet_name;
+                    let check_size = check_size(*width);
                     let value = types::get_uint(self.endianness, *width, self.span);
                     quote! {
+                        #check_size
                         let #id = (#cond_id == #cond_value)
                             .then(||
                                 #type_id::try_from(#value).map_err(|unknown_val| {
